@@ -93,13 +93,15 @@ Definition cg_run (A : V -> V) (b x : V) (niter : nat) : list cgst :=
   let s := cg_init A b x in
   if cg_rr s =? nzero then [] else otrace (cg_step A) niter s.
 
-(* conjugate_gradient_normal *)
-Record cgnst := { n_x : V; n_d : W; n_p : V; n_s : V; n_ss : T }.
-Definition cgn_init (A : V -> W) (At : W -> V) (b : W) (x : V) : cgnst :=
+(* conjugate_gradient_normal.  [eps2] is np.finfo(float).eps ** 2 = 2^-104: the loop returns once
+   |A^T d|^2 has dropped to eps2 times its initial value (`sqnorm_s_old <= sqnorm_s_stop`). *)
+Record cgnst := { n_x : V; n_d : W; n_p : V; n_s : V; n_ss : T; n_stop : T }.
+Definition cgn_init (A : V -> W) (At : W -> V) (eps2 : T) (b : W) (x : V) : cgnst :=
   let d := addW b (scalW (- none_) (A x)) in
   let p := At d in
-  {| n_x := x; n_d := d; n_p := p; n_s := p; n_ss := ipV p p |}.
+  {| n_x := x; n_d := d; n_p := p; n_s := p; n_ss := ipV p p; n_stop := ipV p p * eps2 |}.
 Definition cgn_step (A : V -> W) (At : W -> V) (s : cgnst) : option cgnst :=
+  if n_ss s <=? n_stop s then None else
   let q := A (n_p s) in
   let qq := ipW q q in
   if qq =? nzero then None else
@@ -109,9 +111,9 @@ Definition cgn_step (A : V -> W) (At : W -> V) (s : cgnst) : option cgnst :=
   let s' := At d' in
   let ss' := ipV s' s' in
   let b := ss' / n_ss s in
-  Some {| n_x := x'; n_d := d'; n_p := addV s' (scalV b (n_p s)); n_s := s'; n_ss := ss' |}.
-Definition cgn_run (A : V -> W) (At : W -> V) (b : W) (x : V) (niter : nat) : list cgnst :=
-  otrace (cgn_step A At) niter (cgn_init A At b x).
+  Some {| n_x := x'; n_d := d'; n_p := addV s' (scalV b (n_p s)); n_s := s'; n_ss := ss'; n_stop := n_stop s |}.
+Definition cgn_run (A : V -> W) (At : W -> V) (eps2 : T) (b : W) (x : V) (niter : nat) : list cgnst :=
+  otrace (cgn_step A At) niter (cgn_init A At eps2 b x).
 
 (* ------------------------------------------------------------------ *)
 (* power_method_opnorm, un-normalised form.  The code iterates
